@@ -207,6 +207,13 @@ def gen_cases(rng, tier):
                         [(t0 + 10000, "R"), (t0 + 20000, "R"), (t0 + 30000, "R"), (t0 + 40000, "R")], [(t0 + 31000, "R"), (t0 + 62000, "R")]):
                 c = P06._case("tj%d" % k, "ni", 0, code, t0, evs)
                 cases.append([c[0], "c04", "TIMED"] + c[2:]); k += 1
+    # ... also when the re-send of the response for one of them fails (a transient transport error): the transaction goes on absorbing
+    for t0 in (0, 137):
+        for code in (200, 404):
+            for evs in ([(t0 + 500, "X"), (t0 + 1500, "R"), (t0 + 3500, "R")], [(t0 + 100, "R"), (t0 + 600, "X"), (t0 + 700, "X"), (t0 + 20000, "R"), (t0 + 33000, "R")],
+                        [(t0 + 1, "X"), (t0 + 31000, "R")]):
+                c = P06._case("tx%d" % k, "ni", 0, code, t0, evs)
+                cases.append([c[0], "c04", "TIMED"] + c[2:]); k += 1
     for br in ("", "legacy", "none"):
         for rel in (0, 1):
             for t0 in (0, 137):
@@ -299,8 +306,8 @@ def _timed_oracle(case, impl):
         return []
     if kind != "ni" or rel:
         return []
-    late = [t for (t, k) in inj if k == "R" and t > t0 + 32000][:1]      # later ones are retransmissions of the new transaction
-    early = [t for (t, k) in inj if k == "R" and t0 < t < t0 + 32000]
+    late = [t for (t, k) in inj if k in ("R", "X") and t > t0 + 32000][:1]      # later ones are retransmissions of the new transaction
+    early = [t for (t, k) in inj if k in ("R", "X") and t0 < t < t0 + 32000]
     got = [t for t in layer if t > 0]
     for t in early:
         if t in got:
